@@ -26,6 +26,10 @@ pub enum Shape {
     /// abandoned (it also requires a missing package), so discovery happens under
     /// decisions that are reverted afterwards; x=1 carries the test requirements
     RevertedDiscovery(usize),
+    /// the wanted candidates are ruled out (constrains of a sibling s=2 whose dependencies are hinted
+    /// as available) at the moment the lazily fetched r=1 reveals them through its requirements; s=2 is
+    /// then abandoned (r=1 is the only candidate of r), so the candidates become selectable again
+    FalseWhenRevealed,
 }
 
 #[derive(Clone, Debug, serde::Serialize, serde::Deserialize)]
@@ -101,6 +105,25 @@ pub fn build(spec: &Spec) -> Case {
             }
             prob.reqs.push(Req::Single(e_all));
         }
+        Shape::FalseWhenRevealed => {
+            let s = u.add_name("s");
+            let s1 = u.add_solv(s, 1);
+            let s2 = u.add_solv(s, 2);
+            let s_all = u.add_vset(s, &[s1, s2]);
+            u.names[s as usize].hint = Hint::All;
+            // s=2 constrains p to the candidates that are NOT wanted
+            let others: Vec<Id> = all.iter().filter(|i| !spec.want.contains(i)).map(|&i| cands[i]).collect();
+            let vs_others = u.add_vset(p, &others);
+            u.solvs[s2 as usize].deps.push_con(vs_others);
+            let r = u.add_name("r");
+            let r1 = u.add_solv(r, 1);
+            let r_all = u.add_vset(r, &[r1]);
+            for rq in want_reqs.drain(..) {
+                u.solvs[r1 as usize].deps.push_req(rq);
+            }
+            prob.reqs.push(Req::Single(s_all));
+            prob.reqs.push(Req::Single(r_all));
+        }
         Shape::RevertedDiscovery(k) => {
             let k = (*k).min(spec.n);
             if k > 0 {
@@ -170,6 +193,7 @@ fn shapes_for(n: usize, quick: bool) -> Vec<Shape> {
             v.push(Shape::Blocks(sz));
         }
     }
+    v.push(Shape::FalseWhenRevealed);
     // split points: all of them up to n = 9 (quick) / 40 (thorough); above that the ones around the powers of two
     let mut ks: Vec<usize> = if n <= 9 || (!quick && n <= 40) {
         (0..=n).collect()
